@@ -51,6 +51,8 @@ OPS = [
     (r'\b0\b(?!\.)', '1'), (r'\b1\b(?!\.)', '0'), (r'\btrue\b', 'false'), (r'\bfalse\b', 'true'),
     (r'\.is_some\(\)', '.is_none()'), (r'\.is_none\(\)', '.is_some()'), (r'(?<![\w!])!(?=[\w(])', ''),
     (r'\.rev\(\)', ''), (r'\.skip\(1\)', ''), (r'\.min\(', '.max('), (r'\.max\(', '.min('),
+    (r'\.len\(\)(?! [-+])', '.len() - 1'), (r'\.len\(\)(?! [-+])', '.len() + 1'), (r'\?;', '.unwrap();'), (r'\bSome\((\w+)\)(?=[,;)])', 'None'),
+    (r'(?<=\()&?(\w+), &?(\w+)(?=\))', None), (r'\breturn Ok\(false\)', 'return Ok(true)'), (r'\breturn Err\(', 'if false { return Err('),
 ]
 
 
@@ -68,6 +70,15 @@ def fn_mutants(text, rng, limit):
                 continue
             ln = text.count('\n', 0, m.start())
             if lines[ln].lstrip().startswith('//') or '!(' in lines[ln] and ('timer' in lines[ln] or 'format' in lines[ln]):
+                continue
+            if rp is None:      # swap two simple call arguments
+                a1, a2 = m.group(1), m.group(2)
+                if a1 == a2:
+                    continue
+                rp2 = m.group(0).replace(a1, '\x00').replace(a2, a1).replace('\x00', a2)
+                out.append(('line +%d: swap args `%s`   | %s' % (ln, m.group(0), lines[ln].strip()[:90]), text[:m.start()] + rp2 + text[m.end():]))
+                continue
+            if rp.startswith('if false { return Err('):
                 continue
             out.append(('line +%d: `%s` -> `%s`   | %s' % (ln, m.group(0), rp, lines[ln].strip()[:90]), text[:m.start()] + rp + text[m.end():]))
     # statement deletion: a one-line call statement `recv.method(args);` or `f(args)?;`
